@@ -88,6 +88,102 @@ func serializerFor(cfg map[string]any) *abi.Serializer {
 
 func hasAddrBase64(cfg map[string]any) bool { return cfg["bytes"] == "base64" }
 
+// blandParams: the same parameter tree with every elementary leaf typed bool (array suffixes kept)
+func blandParams(ps any) any {
+	l, _ := ps.([]any)
+	var out []any
+	for _, p := range l {
+		m, _ := p.(map[string]any)
+		n := map[string]any{}
+		for k, v := range m {
+			n[k] = v
+		}
+		t, _ := m["type"].(string)
+		if strings.HasPrefix(t, "tuple") {
+			n["components"] = blandParams(m["components"])
+		} else {
+			suffix := ""
+			if i := strings.Index(t, "["); i >= 0 {
+				suffix = t[i:]
+			}
+			n["type"] = "bool" + suffix
+		}
+		out = append(out, n)
+	}
+	if out == nil {
+		return []any{}
+	}
+	return out
+}
+
+// retypeParams writes the type strings of `ps` into the existing parameter objects (same shape)
+func retypeParams(pa abi.ParameterArray, ps any) {
+	l, _ := ps.([]any)
+	for i, p := range l {
+		if i >= len(pa) {
+			return
+		}
+		m, _ := p.(map[string]any)
+		if t, isStr := m["type"].(string); isStr {
+			pa[i].Type = t
+		}
+		retypeParams(pa[i].Components, m["components"])
+	}
+}
+
+// rawEntryImpl: the call-data / event / revert-data entry points on arbitrary bytes (used by C11 and C12)
+func rawEntryImpl(req map[string]any) any {
+	data := unhx(str(req, "data"))
+	if req["nilData"] == true {
+		data = nil
+	}
+	switch str(req, "kind") {
+	case "calldata":
+		cv, err := entryFromJSON(req["entry"]).DecodeCallData(data)
+		if err != nil {
+			return map[string]any{"dec": "err"}
+		}
+		return map[string]any{"dec": ok(cvToJSON(cv))}
+	case "event":
+		var topics []ethtypes.HexBytes0xPrefix
+		for _, t := range req["topics"].([]any) {
+			topics = append(topics, unhx(t.(string)))
+		}
+		cv, err := entryFromJSON(req["entry"]).DecodeEventData(topics, data)
+		if err != nil {
+			return map[string]any{"dec": "err"}
+		}
+		return map[string]any{"dec": ok(cvToJSON(cv))}
+	default:
+		var a abi.ABI
+		b, _ := json.Marshal(req["abi"])
+		_ = json.Unmarshal(b, &a)
+		_, _ = a.ErrorString(data)
+		e, cv, found := a.ParseError(data)
+		if !found {
+			return map[string]any{"dec": nil}
+		}
+		idx := 0
+		for i, x := range a {
+			if x == e {
+				idx = i + 1
+			}
+		}
+		return map[string]any{"dec": map[string]any{"index": idx, "cv": cvToJSON(cv)}}
+	}
+}
+
+func rawEntryJudge(req map[string]any, impl any, orc map[string]any) []Finding {
+	if impl == "panic" {
+		return []Finding{{Kind: "violation", Region: "abi.rawentry." + str(req, "kind") + ".panic", Detail: "decoding arbitrary bytes through the " + str(req, "kind") + " entry point panicked"}}
+	}
+	m, _ := impl.(map[string]any)
+	if !same(normJ(m["dec"]), normJ(orc["model"])) {
+		return []Finding{{Kind: "mismatch", Region: "abi.rawentry." + str(req, "kind"), Detail: "decoding arbitrary bytes through the " + str(req, "kind") + " entry point differs from model: impl=" + trunc(canon(m["dec"]), 200) + " model=" + trunc(canon(orc["model"]), 200)}}
+	}
+	return nil
+}
+
 func init() {
 	// ------------------------------------------------------------------ C02
 	register(&Suite{
@@ -120,6 +216,38 @@ func init() {
 					req["input"] = extFromGo(in)
 				}
 				c.Add(req, "valid."+style)
+				if i%5 == 0 {
+					// the same case on a definition that was validated and used with other types first
+					h := map[string]any{}
+					for k, v := range req {
+						h[k] = v
+					}
+					h["history"] = true
+					c.Add(h, "valid.history")
+				}
+			}
+			// a width narrowed after first use: the narrower range applies (at any nesting depth)
+			for i := 0; i < 30; i++ {
+				leaf := &absTy{Kind: "uint", M: 8, Name: "x"}
+				var t *absTy = leaf
+				for d := r.Intn(3); d >= 0; d-- {
+					t = &absTy{Kind: "tuple", Name: "t", Comps: []*absTy{{Kind: "bool", Name: "b"}, t}}
+				}
+				wrap := func(v any) any {
+					out := v
+					for tt := t; tt.Kind == "tuple"; tt = tt.Comps[1] {
+						_ = tt
+					}
+					depth := 0
+					for tt := t; tt.Kind == "tuple"; tt = tt.Comps[1] {
+						depth++
+					}
+					for d := 0; d < depth; d++ {
+						out = []any{true, out}
+					}
+					return []any{out}
+				}
+				c.Add(map[string]any{"op": "abi.encode", "params": paramsJSON([]*absTy{t}), "expect": "reject", "style": "go", "history": true, "input": extFromGo(wrap(300))}, "reject.history")
 			}
 			// range boundaries for every width, each in several representations; out-of-range neighbours rejected
 			for m := 8; m <= 256; m += 8 {
@@ -255,6 +383,19 @@ func init() {
 		},
 		Impl: func(req map[string]any) any {
 			pa := paramArray(req["params"])
+			if req["history"] == true {
+				// the definition was first validated and used with other leaf types, then its type strings were changed
+				// in place (same objects) and it was validated again: what counts is the definition as it now stands
+				pa = paramArray(blandParams(req["params"]))
+				e := &abi.Entry{Type: abi.Function, Name: "f", Inputs: pa}
+				_ = e.Validate()
+				_, _ = e.Signature()
+				_, _ = pa.TypeComponentTree()
+				retypeParams(pa, req["params"])
+				if verr := e.Validate(); verr != nil {
+					return "err"
+				}
+			}
 			var b []byte
 			var err error
 			if txt, has := req["jsonText"].(string); has {
@@ -592,6 +733,12 @@ func init() {
 				ts := genEntryParams(r, 1+r.Intn(2))
 				kind := Pick(r, []string{"calldata", "calldata", "event", "error", "error"})
 				typ := map[string]string{"calldata": "function", "event": "event", "error": "error"}[kind]
+				if kind == "event" {
+					// indexed inputs of every kind, composite ones included (they surface as their raw topic)
+					for _, t := range ts {
+						t.Index = r.Intn(2) == 0
+					}
+				}
 				ej := entryJSON(typ, Pick(r, []string{"f", "Transfer", "Err", "Error"}), kind == "event" && r.Intn(4) == 0, ts)
 				e := entryFromJSON(ej)
 				var valid []byte
@@ -668,44 +815,7 @@ func init() {
 		},
 		Impl: func(req map[string]any) any {
 			if str(req, "op") == "abi.rawentry" {
-				data := unhx(str(req, "data"))
-				if req["nilData"] == true {
-					data = nil
-				}
-				switch str(req, "kind") {
-				case "calldata":
-					cv, err := entryFromJSON(req["entry"]).DecodeCallData(data)
-					if err != nil {
-						return map[string]any{"dec": "err"}
-					}
-					return map[string]any{"dec": ok(cvToJSON(cv))}
-				case "event":
-					var topics []ethtypes.HexBytes0xPrefix
-					for _, t := range req["topics"].([]any) {
-						topics = append(topics, unhx(t.(string)))
-					}
-					cv, err := entryFromJSON(req["entry"]).DecodeEventData(topics, data)
-					if err != nil {
-						return map[string]any{"dec": "err"}
-					}
-					return map[string]any{"dec": ok(cvToJSON(cv))}
-				default:
-					var a abi.ABI
-					b, _ := json.Marshal(req["abi"])
-					_ = json.Unmarshal(b, &a)
-					_, _ = a.ErrorString(data)
-					e, cv, found := a.ParseError(data)
-					if !found {
-						return map[string]any{"dec": nil}
-					}
-					idx := 0
-					for i, x := range a {
-						if x == e {
-							idx = i + 1
-						}
-					}
-					return map[string]any{"dec": map[string]any{"index": idx, "cv": cvToJSON(cv)}}
-				}
+				return rawEntryImpl(req)
 			}
 			pa := paramArray(req["params"])
 			block := unhx(str(req, "hex"))
@@ -762,10 +872,7 @@ func init() {
 			}
 			m := impl.(map[string]any)
 			if str(req, "op") == "abi.rawentry" {
-				if !same(normJ(m["dec"]), normJ(orc["model"])) {
-					fs = append(fs, Finding{Kind: "mismatch", Region: "abi.rawentry." + str(req, "kind"), Detail: "decoding arbitrary bytes through the " + str(req, "kind") + " entry point differs from model: impl=" + trunc(canon(m["dec"]), 200) + " model=" + trunc(canon(orc["model"]), 200)})
-				}
-				return fs
+				return rawEntryJudge(req, impl, orc)
 			}
 			if orc["skipped"] == true {
 				if _, isok := m["dec"].(map[string]any); isok {
